@@ -27,9 +27,10 @@ class SingletonLocus:
     the essential functions of a locus, on the assumption that it'll
     only be used to construct event distributions.'''
 
-    def __init__(self, p: Process, e: Element):
+    def __init__(self, p: Process, e: Element, l: Any = None):
         self._process = p
         self._value = e
+        self._locus = l                # locus the element is taken from (if any)
 
 
     def __len__(self) -> int:
@@ -37,6 +38,15 @@ class SingletonLocus:
 
         :returns: 1'''
         return 1
+
+
+    def __contains__(self, e: Element) -> bool:
+        '''Test for membership. The element must be the single value and, if
+        that value was taken from another locus, must still be in that locus.
+
+        :param e: the element
+        :returns: True if the element is in the locus'''
+        return e == self._value and (self._locus is None or e in self._locus)
 
 
     def draw(self) -> Element:
@@ -136,5 +146,5 @@ class SIR_VariableInfection(SIR):
         g = self.network()
         for e in self.locus(self.SI):
             pr = g.edges[e][self.INFECTIVITY]
-            dist.extend([(SingletonLocus(self, e), pr, self.infect, self.INFECTED)])
+            dist.extend([(SingletonLocus(self, e, self.locus(self.SI)), pr, self.infect, self.INFECTED)])
         return dist
